@@ -8,7 +8,11 @@ Parts:
   subset   the same for get_subset.
   wrap     NiftiWrapper.split / NiftiWrapper.from_sequence along every axis (spatial axes with non-unit spacing included):
            data bytes, affine, sform / qform, slice dim_info and extension JSON of every input image before / after.
-           Oracle only (heap effects are not expressible in the functional model: C13(a) is partial in Coq)."""
+           Oracle only (heap effects are not expressible in the functional model: C13(a) is partial in Coq).
+  conv     "conversion leaves its inputs unchanged": a generated series is added to a DicomStack and converted three times;
+           every input pydicom data set (all elements, pixel bytes) and every metadata dictionary handed to add_dcm is
+           compared BY VALUE before / after.  Oracle only.
+Snapshots are values (parsed JSON), never text: dictionary order is not part of the property."""
 import copy, json
 from vlib.coqlit import clist, cpair, cstr
 from props import extlib as X
@@ -56,17 +60,26 @@ def build_ext_ordered(E):
 
 
 def _err_obs(e):
+    if hasattr(X, 'exc_obs'):
+        return X.exc_obs(e)
     name = type(e).__name__
-    if name == 'ValueError' and str(e).startswith('abs:'):
-        return {'err': 'ECrash', 'exc': 'Abstraction', 'msg': str(e)}
+    if isinstance(e, getattr(X, 'AbstractionError', ())) or (name == 'ValueError' and str(e).startswith('abs:')):
+        return {'err': 'ECrash', 'exc': 'Abstraction', 'msg': str(e)[:200]}
     return {'err': X.ERRMAP.get(name, 'ECrash'), 'exc': name, 'msg': str(e)[:200]}
 
 
 def _snap(ext):
+    """the observable content of an extension as a VALUE (parsed JSON: dictionaries compare as maps, not by text / key order)"""
     try:
-        return ext.to_json()
+        return json.loads(ext.to_json())
     except Exception as e:      # noqa: BLE001  (an input the operation has corrupted may not even serialise any more)
-        return 'UNSERIALISABLE %s %s' % (type(e).__name__, json.dumps(X._plain(dict(ext._content)), default=str, sort_keys=False))
+        held = []
+        try:
+            for cls in ext.get_valid_classes():
+                held.append([list(cls), X._plain(dict(ext.get_class_dict(cls)))])
+        except Exception:       # noqa: BLE001
+            pass
+        return ['UNSERIALISABLE', type(e).__name__, [int(x) for x in ext.shape], held]
 
 
 # ------------------------------------------------------------------------------------------ merge
@@ -345,7 +358,7 @@ def run_wrap(case):
             except Exception as e:      # noqa: BLE001
                 out['reuse_same'] = False
             out['pieces_untouched2'] = [_wsnap(p) == s for p, s in zip(pieces, ps0)]
-        del out['merged_ext']
+        out.pop('merged_ext', None)
         return out
     r = X._guard(go)
     return r
@@ -393,11 +406,12 @@ class WrapPart:
 
     @staticmethod
     def signature(case, obs, msg):
-        return 'wrap-snapshot/dim%d' % case['dim']
+        return 'wrap-snapshot/%s' % ('split' if 'split' in msg else 'merge-twice' if 'second' in msg else 'merge')
 
     @staticmethod
     def nontrivial(case, obs):
-        return True
+        # the pieces were merged and every snapshot comparison was made
+        return isinstance(obs, dict) and bool(obs.get('merged')) and obs.get('n_pieces', 0) >= 2
 
     @staticmethod
     def shrink(case):
@@ -407,7 +421,122 @@ class WrapPart:
             yield c
 
 
-PARTS = [MergePart, SubsetPart, WrapPart]
+# ------------------------------------------------------------------------------------------ conversion leaves its inputs unchanged
+
+from props import convmeta as M          # noqa: E402  (read-only: series generators)
+from props import stacklib as L          # noqa: E402
+
+
+def _ds_value(ds):
+    """a pydicom data set as a plain value: (tag, VR, value) of every element, pixel bytes included"""
+    out = []
+    for el in ds:
+        v = el.value
+        if isinstance(v, (bytes, bytearray)):
+            v = ['bytes', bytes(v).hex()]
+        elif el.VR == 'SQ':
+            v = [_ds_value(item) for item in v]
+        else:
+            try:
+                v = [str(x) for x in v] if not isinstance(v, (str, int, float)) and hasattr(v, '__iter__') else str(v)
+            except Exception:       # noqa: BLE001
+                v = repr(v)
+        out.append([int(el.tag), str(el.VR), v])
+    return out
+
+
+def run_conv(case):
+    """Build the series, add every file (hand-built or extracted metadata), convert twice (with and without embedding, the
+    requested voxel order and none): every input data set, every metadata dictionary handed to add_dcm and the extension the
+    stack made for every file must be the same VALUE afterwards."""
+    import warnings
+    warnings.simplefilter('ignore')
+    import dcmstack
+    st = dcmstack.DicomStack(time_order=L.make_ordering(dcmstack, case.get('time_order')),
+                             vector_order=L.make_ordering(dcmstack, case.get('vector_order')),
+                             meta_filter=M.make_filter(dcmstack, case['filter']))
+    inputs = []
+    changed_by_add = []
+    for i in case['add_order']:
+        spec = case['files'][i]
+        ds = M.build_ds(spec)
+        ds0 = _ds_value(ds)
+        if case['meta_mode'] == 'hand':
+            meta = M.meta_truth(case, spec)
+            meta0 = copy.deepcopy(M.plain(meta))
+            st.add_dcm(ds, meta)
+        else:
+            meta, meta0 = None, None
+            st.add_dcm(ds)
+        if _ds_value(ds) != ds0:
+            changed_by_add.append(['dataset', spec['id']])
+        if meta is not None and M.plain(meta) != meta0:
+            changed_by_add.append(['metadata dictionary', spec['id']])
+        inputs.append((spec['id'], ds, ds0, meta, meta0))
+    out = {'changed_by_add': changed_by_add, 'steps': []}
+    for name, f in (('to_nifti(%r, embed_meta=True)' % case['vo'], lambda: st.to_nifti(case['vo'], embed_meta=True)),
+                    ('to_nifti_wrapper(%r)' % '', lambda: st.to_nifti_wrapper('')),
+                    ('to_nifti(%r, embed_meta=False)' % case['vo'], lambda: st.to_nifti(case['vo'], embed_meta=False))):
+        step = {'step': name, 'changed': []}
+        try:
+            f()
+        except Exception as e:      # noqa: BLE001
+            step['exc'] = type(e).__name__
+        for fid, ds, ds0, meta, meta0 in inputs:
+            if _ds_value(ds) != ds0:
+                step['changed'].append(['dataset', fid])
+            if meta is not None and M.plain(meta) != meta0:
+                step['changed'].append(['metadata dictionary', fid])
+        out['steps'].append(step)
+    return out
+
+
+def oracle_conv(case, obs):
+    if 'crash' in obs:
+        return 'harness: %s' % obs.get('msg')
+    for what, fid in obs.get('changed_by_add', []):
+        return 'add_dcm modified the %s of file %d' % (what, fid)
+    for s in obs['steps']:
+        for what, fid in s['changed']:
+            return '%s modified the %s of file %d' % (s['step'].split('(')[0], what, fid)
+    return None
+
+
+class ConvPart:
+    NAME = 'conv'
+    CORR_CHECK = None
+    IMPL_TIMEOUT = 120
+    RULE = ('synthetic complete series (C01 generators: 3-5 D, every orientation / voxel order, hand-built and extracted metadata), '
+            'added to a DicomStack and converted three times (embedding on / off, with and without voxel reordering); every input '
+            'pydicom data set (all elements incl. pixel bytes) and every metadata dictionary handed to add_dcm is compared by value '
+            'before / after add_dcm and after every conversion; oracle only; non-trivial = at least two files and a conversion ran')
+
+    @staticmethod
+    def gen_cases(rng, tier):
+        out = []
+        for _ in range(50 if tier == 'quick' else 400):
+            c = M.gen_case(rng, tier, shape_class=rng.choice([None, None, '5d', 'vec_t1', '3d']))
+            c['kind'] = 'conv/' + c['kind']
+            out.append(c)
+        return out
+
+    run_impl = staticmethod(run_conv)
+    oracle = staticmethod(oracle_conv)
+
+    @staticmethod
+    def signature(case, obs, msg):
+        return 'conv-inputs/%s/%s' % (msg.split(' ')[0], 'dataset' if 'dataset' in msg else 'metadata')
+
+    @staticmethod
+    def nontrivial(case, obs):
+        return isinstance(obs, dict) and len(case['files']) >= 2 and any('exc' not in s for s in obs.get('steps', []))
+
+    @staticmethod
+    def shrink(case):
+        return M.shrink(case)
+
+
+PARTS = [MergePart, SubsetPart, WrapPart, ConvPart]
 
 # image level (integrator): the image-level correspondence parts snapshot every input image (data bytes, affine) and
 # input extension before/after NiftiWrapper.from_sequence / split; their 'C13:' oracle messages report a modified input
@@ -434,3 +563,9 @@ THEOREMS = list(THEOREMS) + ['SRC_global_slice_subset', 'SRC_changed_class']
 COQ_PROPS = list(COQ_PROPS) + ['Props/SRCstate.v']
 THEOREMS = list(THEOREMS) + ['SRC_change_class', 'SRC_simplify', 'SRC_to_content_holds']
 TABLES = sorted(set(list(TABLES) + ['t_src_state', 't_content', 't_cli']))
+
+
+# source tie, stage C (integrator): _copy_slice is TRANSLATED in state-passing form and copy_slice_k folded over the source class
+# dictionary is proved equal to the translation (Props/SRCsubset.v)
+COQ_PROPS = list(COQ_PROPS) + ['Props/SRCsubset.v']
+THEOREMS = list(THEOREMS) + ['SRC_copy_slice_step', 'SRC_copy_slice']
